@@ -833,3 +833,9 @@ func (d *P4d) ResetExceptInterfaces() {
 	d.meters = map[[2]int64]*PMeter{}
 	d.counters = map[[2]int64]int64{}
 }
+
+// Decode decodes a wire entry without recording conformance violations.
+func (d *P4d) Decode(te *p4.TableEntry) *PEntry {
+	e, _ := d.decode(te, false)
+	return e
+}
